@@ -473,6 +473,11 @@ def r10_8(ctx):
     from .c08 import r08_3
 
     r08_3(ctx)  # the value handed back by a call is read with sign and width of the declared return type (also 8 / 16 bit)
+    from .c07 import r07_3
+    from .c08 import r08_6
+
+    r07_3(ctx)  # the operand declaration names the register class of the operand's width (pairs incl. Rn:0)
+    r08_6(ctx)  # locals of the bundled routines are disjoint: one IL variable never gets values of two widths
     idx = get_index(ctx.env)
     hybrid_temp_type_checks(ctx)
     # --- register operand widths (table shared with C07)
